@@ -162,11 +162,12 @@ pub fn collect(names: &[String]) -> Value {
                 if let Some(h) = em.histogram() {
                     for (k, (mag, cnt)) in h.buckets().enumerate() {
                         if cnt != 0 {
-                            b.push(json!([k + 1, cnt, limbs(mag)]));
+                            // (TLC integers are 32-bit: a count beyond 2e9 - never legitimate here - is logged as 2e9)
+                            b.push(json!([k + 1, cnt.min(2_000_000_000), limbs(mag)]));
                         }
                     }
                 }
-                json!({"c":em.count(),"s":limbs(em.sum()),"b":b})
+                json!({"c":em.count().min(2_000_000_000),"s":limbs(em.sum()),"b":b})
             }
         });
     }
